@@ -1,6 +1,7 @@
 import warnings
 
 from numpy import ndim
+from numpy.linalg import norm
 from sklearn.linear_model import MultiTaskLasso, OrthogonalMatchingPursuit
 
 
@@ -21,15 +22,22 @@ def constrained_binary_solve(
         precompute=precompute,
     )
 
+    # The pursuit also stops on an absolute threshold (machine epsilon on the squared
+    # correlations between the columns of psi and the residual), which data in very
+    # large or very small units never exceed. The solution is linear in w and
+    # inversely linear in psi: solve the normalised problem and scale back.
+    w_scale = norm(w) or 1.0
+    psi_scale = norm(psi) or 1.0
+
     if quiet:
         with warnings.catch_warnings():
             warnings.filterwarnings("ignore", category=RuntimeWarning)
             warnings.filterwarnings("ignore", category=UserWarning)
-            model.fit(psi, w)
+            model.fit(psi / psi_scale, w / w_scale)
     else:
-        model.fit(psi, w)
+        model.fit(psi / psi_scale, w / w_scale)
 
-    return model.coef_
+    return model.coef_ * (w_scale / psi_scale)
 
 
 def constrained_multiclass_solve(w, psi, alpha=1.0, quiet=False, **lasso_kws):
